@@ -93,6 +93,9 @@ def Book.step (b : Book) : Obs → Book
     let b := b.setJob k { f with exited := f.exited + 1 }
     { b with inflight := b.inflight - 1 }
   | .crash _ => { b with crashed := true }
+  | .adapter _ _ "preload" k [bad] =>
+    -- an entry already on the adapter when the worker binds counts as an accepted submission
+    if bad == "false" then b.setJob (k.toNat?.getD 0) { b.job (k.toNat?.getD 0) with addCalled := true, addRet := some true } else b
   | _ => b
 
 /-- jobs added while a purge of the same queue is in progress may be purged too -/
